@@ -1,0 +1,65 @@
+//go:build verif
+
+package compose
+
+import (
+	"context"
+	"io"
+
+	"github.com/cloudwego/eino/schema"
+)
+
+// VerifC12ConvertRestore takes the value a node of output type any left for its successor as a
+// stream of the given chunks through what a streaming run does with it around an interrupt:
+// convertCheckPoint turns the stream into a value (streamConverter.convertInputs), the checkpoint
+// goes through checkPointer.set / get over an in-memory store, and the resumed run - through
+// Stream (resumeStream) or through Invoke - restores it (restoreCheckPoint). Returned: what the
+// checkpoint held for the node after the conversion, and what the successor is handed after the
+// resume (the chunks of the restored stream; the value itself for a resume without streams).
+func VerifC12ConvertRestore(chunks []any, resumeStream bool) (stored any, restored []any, value any, err error) {
+	pairs := map[string]streamConvertPair{"n": defaultStreamConvertPair[any]()}
+	st := &verifC12Store{m: map[string][]byte{}}
+	c := newCheckPointer(pairs, pairs, st)
+	ctx := context.Background()
+	cp := &checkpoint{Inputs: map[string]any{"n": packStreamReader(schema.StreamReaderFromArray(chunks))}}
+	if err = c.convertCheckPoint(cp, true); err != nil {
+		return nil, nil, nil, err
+	}
+	stored = cp.Inputs["n"]
+	if err = c.set(ctx, "a", cp); err != nil {
+		return stored, nil, nil, err
+	}
+	got, _, err := c.get(ctx, "a")
+	if err != nil {
+		return stored, nil, nil, err
+	}
+	if err = c.restoreCheckPoint(got, resumeStream); err != nil {
+		return stored, nil, nil, err
+	}
+	if !resumeStream {
+		return stored, nil, got.Inputs["n"], nil
+	}
+	sr, ok := got.Inputs["n"].(streamReader)
+	if !ok {
+		panic("the restored pending input is not a stream")
+	}
+	asr := sr.toAnyStreamReader()
+	defer asr.Close()
+	restored = []any{}
+	for {
+		ch, e := asr.Recv()
+		if e == io.EOF {
+			return stored, restored, nil, nil
+		}
+		if e != nil {
+			return stored, restored, nil, e
+		}
+		restored = append(restored, ch)
+	}
+}
+
+// VerifC12IsNilChunk: the value is the marker a checkpoint holds for a stream of one nil chunk.
+func VerifC12IsNilChunk(v any) bool {
+	_, ok := v.(nilChunk)
+	return ok
+}
